@@ -237,20 +237,31 @@ func (fr *Frame) havocCallbackObject(at types.Type, p Term, st *State) {
 	vc.heapStoreRaw(st, named, p, nv)
 }
 
-// havocCallbackGhost: header maps and the ghost view of writers may change.
+// havocCallbackGhost: header maps and the ghost view of writers may change;
+// so may every object of a type with a representation invariant (the
+// invariant is re-assumed when such an object is read again).
 func (fr *Frame) havocCallbackGhost(st *State) {
 	vc := fr.vc
+	for tn := range vc.L.CF.TypeInvs {
+		if o := vc.L.Pkg.Scope().Lookup(tn); o != nil {
+			t := o.Type()
+			name := vc.ss.HeapName(t)
+			srt := HeapSort(vc.specialSort(t))
+			vc.heapFor(st, name, srt)
+			st.heaps[name] = vc.Fresh("cb."+name, srt)
+		}
+	}
 	name, hs := vc.mapHeap(vc.headerMapType())
 	vc.heapFor(st, name, hs)
 	st.heaps[name] = vc.Fresh("cb.hdr", hs)
 	for g, srt := range vc.heapSorts {
-		if strings.HasPrefix(g, "$g.") {
+		if strings.HasPrefix(g, "$g.") && !strings.HasPrefix(g, "$g.lock.") && !strings.HasPrefix(g, "$g.mux") {
 			vc.heapFor(st, g, srt)
 		}
 	}
 	var gs []string
 	for g := range st.heaps {
-		if strings.HasPrefix(g, "$g.") {
+		if strings.HasPrefix(g, "$g.") && !strings.HasPrefix(g, "$g.lock.") && !strings.HasPrefix(g, "$g.mux") {
 			gs = append(gs, g)
 		}
 	}
